@@ -1,14 +1,14 @@
 #!/bin/sh
-# eval_seed2.sh <PROP> <x>   blind evaluation of a round-2 seeded change delivered in /tmp/wt2-<PROP>/_seed/<x>:
-# copies it to /tmp/seed2/<PROP>/<x>, runs the property's quick check with the patch applied to /repo (and undone),
-# then confirms the seed in a scratch worktree.  Results: /tmp/seed2/<PROP>/<x>/{detect.txt,verify.json}
-p="$1"; x="$2"
-src=/tmp/wt2-$p/_seed/$x
+# eval_seed2.sh <PROP> <x> [extra PROP...]  blind evaluation of a round-2 seeded change delivered in /tmp/wt2-<PROP><x>/_seed/<x>:
+# copies it to /tmp/seed2/<PROP>/<x>, runs the property's quick check against a scratch worktree with the patch applied,
+# then confirms the seed in another scratch worktree.  Results: /tmp/seed2/<PROP>/<x>/{detect.txt,verify.json}
+p="$1"; x="$2"; shift 2
+src=/tmp/wt2-$p$x/_seed/$x
 dst=/tmp/seed2/$p/$x
 [ -f "$src/patch.diff" ] || { echo "no seed $src"; exit 2; }
 mkdir -p "$dst" && cp "$src"/* "$dst"/ 2>/dev/null
 cd /verif
-tools/try_seed.sh "$dst/patch.diff" quick "$p" > "$dst/detect.txt" 2>&1
+tools/try_seed_wt.sh "$dst/patch.diff" quick "$p" "$@" > "$dst/detect.txt" 2>&1
 tools/verify_seed.sh "$dst" > "$dst/verify.out" 2>&1
 grep -m1 '^{"seed"' "$dst/verify.out" > "$dst/verify.json"
 echo "== $p-$x: $(grep -E '^== ' $dst/detect.txt | tr '\n' ' ') | $(cat $dst/verify.json)"
